@@ -2,6 +2,18 @@
 SYM = "solver-based: bounded symbolic execution of the real functions (symlite proxies over z3; per-path VC discharged by z3; CEX replayed)"
 
 CLAIMS = {
+    "C01": dict(design_ref="§3 C01", technique=SYM + "; plus direct z3 regex-inclusion query per dialect",
+                text="Kernels of the lexer, each for ALL lengths/offsets within a bounded structure: (1) StringLexer.match/_subdivide/"
+                     "_trim_match are lossless for any contract-respecting search results (<=2..4 hits); (2) the PyLexer.lex / lex_match "
+                     "loops tile the input and never raise given the whitespace/newline/last-resort contract, which (3) is proved by a z3 "
+                     "regex query on every dialect's live matcher patterns; (4) map_template_slices + _iter_segments + "
+                     "_handle_zero_length_slice over 17 slice shapes (literal/templated/escaped/comment/blocks, loops = backward jump, "
+                     "skipped branches = forward jump) x <=4 lexed elements: templated slices tile the rendering with len(raw)==slice "
+                     "length, source slices in bounds and non-decreasing (reset at loop markers), every source offset covered by a token "
+                     "or placeholder, template indents balance, one LXR error per unlexable token.",
+                note="Assumes the TemplatedFile tiling invariant (C07) and that trim patterns are maximal runs (X+; checked "
+                     "syntactically). The content of the ~150 dialect regexes (which text becomes which token) is outside. "
+                     "Known finding F18 (token spanning a loop jump) is excluded by pattern."),
     "C10": dict(design_ref="§3 C10/C11/C30", technique=SYM,
                 text="Bounded model checking of the real patch pipeline (generate_source_patches filter, merge_source_patches, "
                      "_slice_source_file_using_patches, _build_up_fixed_source_string) for ALL source lengths, slice boundaries, "
@@ -43,6 +55,6 @@ NOT_APPLICABLE = {
     "C16": "oracle is SQLite executing the query before/after; no solver model of SQL semantics is within reach",
     "C17": "fixpoint of the whole rule set over arbitrary SQL; not encodable",
 }
-for _p in ["C01", "C02", "C03", "C04", "C05", "C06", "C07", "C08", "C09", "C15", "C18", "C19", "C20", "C21", "C22",
+for _p in ["C02", "C03", "C04", "C05", "C06", "C07", "C08", "C09", "C15", "C18", "C19", "C20", "C21", "C22",
            "C24", "C25", "C26", "C27", "C28", "C29", "C32", "C34"]:
     NOT_APPLICABLE.setdefault(_p, "check not built yet (planned, see DESIGN.md §3); not claimed until its harness is committed")
